@@ -356,6 +356,10 @@ package block
 //@                       && (m.store.height > 1 ==> old(m.lastState.LastBlockTime) <= TimeOfU64(m.store.hdrAt[m.store.height].time))
 //@                       && m.store.hdrAt[m.store.height].dataHash == CommitTxs(m.store.txsAt[m.store.height])
 //@   ensures [link] m.store.height == old(m.store.height) + 1 ==> Linked(m, m.store, m.store.height)
+// the data stream is hash-linked as well (go-header verifies Data against its predecessor by it): the metadata of a
+// committed block names the hash of the previous block's data - also when the block was found pending in the store
+//@   ensures [data-link] m.store.height == old(m.store.height) + 1 && m.store.height > m.genesis.InitialHeight ==> m.store.dataMetaAt[m.store.height].present
+//@                       && m.store.dataMetaAt[m.store.height].lastDataHash == HashData(m.store.txsAt[m.store.height - 1], m.store.dataMetaAt[m.store.height - 1])
 //@   ensures [signed] m.store.height == old(m.store.height) + 1 ==> m.store.hdrAt[m.store.height].proposer == m.store.signerAddrAt[m.store.height]
 //@                       && Signed(pkraw(m.store.signerKeyAt[m.store.height]), Payload(m.store.hdrAt[m.store.height]), m.store.hsigAt[m.store.height])
 // the header that is validated (and then committed) carries the signature the signer produced for it in
@@ -498,6 +502,11 @@ package block
 // a cached part waits for its counterpart: the loop itself never takes anything out of the caches - that happens
 // only when the block has been applied (inside trySyncNextBlock)
 //@   loop 1 invariant [cached-parts-wait] di.count == 0
+// completeness of the data case: data with transactions and metadata for a height above the chain that was not
+// seen before is put into the cache (and then tried) - whatever else is known about that height or any other
+//@   observe isn := call IsSeen
+//@   observe sh := call Height
+//@   loop 1 invariant [every-new-data-cached] recvCount("dataInCh") == 1 && isn.count == 1 && !isn.res0 && sh.count == 1 && sh.res1 == nil && data.Metadata.Height > sh.res0 ==> si.count == 1
 //@   loop 1 invariant [monotone] m.store.height >= old(m.store.height)
 //@   ensures [monotone] m.store.height >= old(m.store.height)
 
@@ -543,6 +552,10 @@ package block
 //@                       && g1.arg1 == m.config.Node.LazyBlockInterval.Duration && g2.arg1 == m.config.Node.BlockTime.Duration
 //@                       && lazyTimer.resetTo == g1.res0 && blockTimer.resetTo == g2.res0
 //@   ensures [timers-armed] err == nil ==> armed(lazyTimer) && armed(blockTimer)
+// what a caller can rely on without looking inside: after a block the block timer fires within one block time
+// and the idle timer within one idle interval (a millisecond at least)
+//@   ensures [block-timer-within-block-time] err == nil ==> blockTimer.resetTo > 0 && blockTimer.resetTo <= max(m.config.Node.BlockTime.Duration, 1000000)
+//@   ensures [lazy-timer-within-lazy-interval] err == nil ==> lazyTimer.resetTo > 0 && lazyTimer.resetTo <= max(m.config.Node.LazyBlockInterval.Duration, 1000000)
 
 //@ func (m *Manager) lazyAggregationLoop(ctx, blockTimer) (err)
 //@   property C17
@@ -559,6 +572,10 @@ package block
 //@   loop 1 invariant [block-timer-idle] recvCount("blockTimer.C") == 1 && !iter(m.txsAvailable) ==> pbk.count == 0 && !m.txsAvailable
 //@                       && rst.count == 1 && rst.arg0 == blockTimer && rst.arg1 == m.config.Node.BlockTime.Duration
 //@   loop 1 invariant [one-case] recvCount("txNotifyCh") + recvCount("lazyTimer.C") + recvCount("blockTimer.C") <= 1 && pbk.count <= 1
+// the loop's two timers keep their roles through every production: afterwards the block timer fires within one
+// block time (a waiting transaction is picked up then), the idle timer within one idle interval
+//@   loop 1 invariant [timers-keep-their-roles] pbk.count == 1 && pbk.res0 == nil ==> blockTimer.resetTo > 0 && blockTimer.resetTo <= max(m.config.Node.BlockTime.Duration, 1000000)
+//@                       && lazyTimer.resetTo > 0 && lazyTimer.resetTo <= max(m.config.Node.LazyBlockInterval.Duration, 1000000)
 //@   ensures [error-ends] err != nil ==> pbk && pbk.res0 != nil
 
 //@ func (m *Manager) normalAggregationLoop(ctx, blockTimer) (err)
@@ -629,6 +646,16 @@ package block
 // the configured payload provider reads the header, it does not change it (assumed)
 //@ func ManagerOptions.SignaturePayloadProvider(h) (bz, err)
 //@   ensures [payload] err == nil ==> val(bz) == Payload(HdrOf(h))
+
+// C07: the DA-inclusion marks live in the caches only (a sequencer sets a mark once, when the DA layer accepts
+// the submission, and never submits that height again): a clean shutdown that reports success has written
+// both caches out - on every kind of node - so that the marks survive the restart
+//@ func (m *Manager) SaveCache() (err)
+//@   property C07
+//@   requires [wiring] m.headerCache != nil && m.dataCache != nil
+//@   observe sv := call SaveToDisk
+//@   ensures [both-caches-saved] err == nil ==> sv.count == 2 && sv.res0 == nil
+//@   ensures [each-cache-once] sv.count <= 2 && (sv.count >= 1 ==> sv.arg0 == m.headerCache || sv.arg0 == m.dataCache)
 
 // reading the cache files touches only the caches (assumed: gob and the file system are outside)
 //@ func (m *Manager) LoadCache() (err)
